@@ -47,6 +47,7 @@ def run(repo, chk):
     rule_stale(repo, chk)
     rule_roles(chk, base)
     rule_wait(repo, chk)
+    rule_closed_noticed(repo, chk)
 
 
 def rule_wait(repo, chk):
@@ -353,6 +354,26 @@ def rule_stale(repo, chk):
                 q = pat.guarded_by(g, n, fresh)
                 chk.ob('c', f.ref, f'{name} is reported only for an object that still owns the number the kernel reported (a closed object whose number was reused is dropped, '
                                    'not credited with the new descriptor\'s readiness)', q is None, loc(f, n.ast), path=pat.path_lines(q) if q else None, discr=f'not-stale:{name}')
+
+
+def rule_closed_noticed(repo, chk):
+    """A descriptor that was closed without being discarded: Select finds it when select() fails and preens its lists, Poll when the number is reported again.  The
+    kernel drops a closed descriptor from an epoll set silently, so EPoll has to look for itself — or the owner never learns (no `_disconnect`), and the dead object
+    stays in the tables."""
+    chk.rule('C10.j', 'every poller notices a descriptor that was closed without discard (a staleness probe — the object\'s fileno() against the number it is known under, '
+                      'or failing — on the way to its events) and reports one _disconnect for it')
+    for cname in ('Poll', 'EPoll'):
+        c = repo.cls(POLLERS, cname)
+        probes = []
+        for mname in ('_generate_events', '_process'):
+            f = c.methods.get(mname)
+            if f is None:
+                continue
+            chk.touch(f)
+            probes += [n for n in walk_no_defs(f.node) if isinstance(n, ast.Compare) and any('.fileno()' in src(x) for x in [n.left] + n.comparators)]
+        f = c.methods.get('_generate_events')
+        chk.ob('j', f.ref if f is not None else c.ref, f'{cname} probes the objects it knows for having been closed behind its back', bool(probes),
+               loc(f, f.node) if f is not None else POLLERS, discr='closed-without-discard-noticed')
 
 
 def rule_select(repo, chk):
